@@ -76,8 +76,8 @@ Emit == Terminal =>
                                     errn |-> GenErr(DP, m.err, FALSE, m.hookname # ""), reads |-> m.reads,
                                     evs |-> m.evs, result |-> m.result, regs |-> m.regs],
                              p |-> IF phase = "pack"
-                                   THEN [st |-> p.st, out |-> p.out, err |-> p.err, errv |-> GenErr(DP, p.err, TRUE, p.hookname # ""),
-                                         errn |-> GenErr(DP, p.err, FALSE, p.hookname # ""), writes |-> p.writes,
+                                   THEN [st |-> p.st, out |-> p.out, err |-> p.err, errv |-> GenErrP(DP, p.err, TRUE, p.hookname # ""),
+                                         errn |-> GenErrP(DP, p.err, FALSE, p.hookname # ""), writes |-> p.writes,
                                          evs |-> p.evs, cur |-> p.frag.cur, dev |-> Dev_F5(MU, MP)]
                                    ELSE NoPack])>>)
 =============================================================================
